@@ -241,6 +241,16 @@ func (c CfgSpec) NewVMFromSeed(seed []byte) *ds.Context {
 	return vm
 }
 
+// Tame removes the configurations in which known, separately recorded resource defects of the
+// unchanged tree (C07: exploding pools never terminate in max mode) would hang checks that are
+// about something else.
+func (c CfgSpec) Tame() CfgSpec {
+	if c.Max {
+		c.WoD, c.DC = false, false
+	}
+	return c
+}
+
 func GenCfg(r *Rng) CfgSpec {
 	c := CfgSpec{}
 	c.WoD, c.CoC, c.Fate, c.DC = r.Chance(3, 4), r.Chance(3, 4), r.Chance(3, 4), r.Chance(3, 4)
